@@ -49,6 +49,10 @@ type pipeStreams struct {
 	writeFirst int
 	gate       int
 	viaCopy    bool
+	// wTimeoutAt >= 0: the transport's write deadline expires once, at that
+	// offset of the backend stream; the caller extends it and writes the rest
+	// of its buffer (what Write's count says was not taken).
+	wTimeoutAt int
 }
 
 // copySink is a writer without ReadFrom: io.Copy either loops over Read or
@@ -112,6 +116,7 @@ func (ps *pipeStreams) index(fb []byte) error {
 }
 
 type pipeRun struct {
+	retried    int // writes repeated after a write timeout
 	newConnErr error
 	read       []byte
 	readErr    error
@@ -224,6 +229,9 @@ func (ps *pipeStreams) replayX(chunks []int, readBuf int, cutAt int, cutErr erro
 	sc.CutAt = cutAt
 	sc.CutErr = cutErr
 	sc.WriteErrAt = wErrAt
+	if ps.wTimeoutAt > 0 {
+		sc.WriteTimeoutAt = ps.wTimeoutAt
+	}
 	if readBuf <= 0 {
 		readBuf = 32768
 	}
@@ -255,6 +263,16 @@ func (ps *pipeStreams) replayX(chunks []int, readBuf int, cutAt int, cutErr erro
 				// "Write must not retain p"): hand over a scratch copy and scribble on it
 				scratch := append([]byte(nil), ps.b[wpos:wpos+n]...)
 				wn, werr := conn.Write(scratch)
+				if werr != nil && ps.wTimeoutAt > 0 && errors.Is(werr, os.ErrDeadlineExceeded) && wn >= 0 && wn <= n {
+					// the deadline is extended and the rest of the buffer written
+					pr.retried++
+					rest := append([]byte(nil), scratch[wn:]...)
+					wn2, werr2 := conn.Write(rest)
+					for i := range rest {
+						rest[i] = 0xAA
+					}
+					wn, werr = wn+wn2, werr2
+				}
 				for i := range scratch {
 					scratch[i] = 0xAA
 				}
@@ -397,7 +415,7 @@ func (ps *pipeStreams) fullImage() []byte {
 
 func executePipe(t *testing.T, prop string, seed uint64, p *PipePlan) *core.Result {
 	res := &core.Result{}
-	ps := &pipeStreams{viaCopy: p.ViaCopy}
+	ps := &pipeStreams{viaCopy: p.ViaCopy, wTimeoutAt: -1}
 	switch p.Source {
 	case "live":
 		lr := executeLive(t, prop, seed, p.Live)
@@ -604,6 +622,36 @@ func executePipe(t *testing.T, prop string, seed uint64, p *PipePlan) *core.Resu
 			}
 		}
 		log = append(log, fmt.Sprintf("wsplit %d", len(ps.b)))
+	case "wretry":
+		for k := 1; k < len(ps.b); k += stride {
+			if p.Only != nil {
+				k = *p.Only
+			}
+			ps.wTimeoutAt = k
+			pr := ps.replay(nil, 0, -1, nil, []int{1 + k%7, 4096}, -1)
+			ps.wTimeoutAt = -1
+			res.Evals++
+			res.Fault("write-timeout")
+			what := fmt.Sprintf("transport write deadline expires once after %d of %d bytes; the caller extends it and writes what Write said it had not taken", k, len(ps.b))
+			switch {
+			case pr.panicMsg != "":
+				hint(k)
+				res.Fail(prop, "panic", pr.panicSite+": "+normMsg(pr.panicMsg), "%s", what)
+			case pr.retried == 0:
+				// the timeout fell where no Write of the replay crossed it
+			case pr.writeErr != nil:
+				res.Probe("write_timeout_latched")
+			case !bytes.Equal(pr.out, ps.b):
+				hint(k)
+				res.Fail(prop, "cut", "after a write timeout and the caller's retry the client's stream is not the backend's", "%s: client has %d bytes, the backend wrote %d, first difference at %d", what, len(pr.out), len(ps.b), firstDiff(pr.out, ps.b))
+			default:
+				res.Probe("resumed_after_write_timeout")
+			}
+			if p.Only != nil {
+				break
+			}
+		}
+		log = append(log, fmt.Sprintf("wretry %d", len(ps.b)))
 	case "wcuts":
 		for k := 0; k < len(ps.b); k += stride {
 			if p.Only != nil {
@@ -656,6 +704,9 @@ func genC07(seed uint64, idx int, tier string) *Plan {
 	r := core.NewRand(seed, "plan")
 	p := &PipePlan{Stride: 1}
 	p.Mode = []string{"cuts", "chunks", "wsplit", "wcuts", "cuts", "chunks"}[idx%6]
+	if idx%12 == 9 {
+		p.Mode = "wretry"
+	}
 	p.ViaCopy = idx%5 == 3
 	if r.IntN(2) == 0 {
 		p.Source = "live"
